@@ -2,6 +2,7 @@
 stays bounded, every ingested item has exactly one fate, toxic items are never recycled
 and reach on_toxic at most once."""
 import ast
+import copy
 import dataclasses
 import heapq
 import datetime as _dt
@@ -231,31 +232,22 @@ class _Clock:
         self.t = 0          # hours since BASE
 
 
-def wid(w):
-    """item id carried in the content of a Waste (ingest_error wraps it in 'context')."""
-    c = w.content if hasattr(w, "content") else w
-    if isinstance(c, dict):
-        if "id" in c:
-            return c["id"]
-        if isinstance(c.get("context"), dict) and "id" in c["context"]:
-            return c["context"]["id"]
-    return None
-
-
-def refs(v):
-    """ids of items a recycled value refers to"""
-    if isinstance(v, bool):
-        return set()
-    if isinstance(v, int):
-        return {v}
-    i = wid(v)
-    if i is not None:
-        return {i}
-    if isinstance(v, (list, tuple, set)):
-        return set().union(*[refs(x) for x in v]) if v else set()
+def has_secret(v, depth=0):
+    """does a recycled value contain (a copy of) the content of a sensitive item?"""
+    if depth > 6:
+        return False
     if isinstance(v, dict):
-        return set().union(*[refs(x) for x in v.values()]) if v else set()
-    return set()
+        return bool(v.get("secret")) or any(has_secret(x, depth + 1) for x in v.values())
+    if isinstance(v, (list, tuple, set)):
+        return any(has_secret(x, depth + 1) for x in v)
+    if hasattr(v, "content"):
+        return has_secret(v.content, depth + 1)
+    return False
+
+
+def int_refs(values):
+    """item ids among recycled values (the scripted digesters return the id of the item as value)"""
+    return sorted({v for v in values if isinstance(v, int) and not isinstance(v, bool)})
 
 
 def keynum(k):
@@ -339,11 +331,21 @@ class Rig:
         self.calls = []         # (id, "dg"|"cb", raised)   every digester / on_toxic call, in order
         self.toxlog = []
         self.recycle_expected = []   # (id, keys) of digester results handed back to digest()
+        # Items are identified by ingest EVENT, never by value: two value-equal Waste objects are two items, and one
+        # Waste object ingested twice is two items.  objs[event] = the object (for the ones the harness builds);
+        # by_content[id(dict)] = event for objects built inside ingest_error / ingest_sensitive (the dict we pass
+        # becomes content / content['context']).  departed/inop: how many events of an object have left the queue
+        # before / during the current call (the queue is FIFO, so they leave in event order).
+        self.objs = {}
+        self.by_content = {}
+        self.keep = []
+        self.departed = {}
+        self.inop = {}
         self.wt = [L.WasteType.MISFOLDED_PROTEIN, L.WasteType.EXPIRED_CACHE, L.WasteType.FAILED_OPERATION,
                    L.WasteType.ORPHANED_RESOURCE, L.WasteType.TOXIC_BYPRODUCT]
 
         def dg(waste):
-            i = wid(waste)
+            i = self.event_of_call(waste)
             out = self.outs.get(i)
             self.calls.append((i, "dg", out is None))
             if out is None:
@@ -353,7 +355,7 @@ class Rig:
             return {f"k{k}": i for k in out}
 
         def on_toxic(waste):
-            i = wid(waste)
+            i = self.event_of_call(waste)
             out = self.outs.get(i)
             self.toxlog.append(i)
             self.calls.append((i, "cb", out is None))
@@ -368,20 +370,76 @@ class Rig:
     def close(self):
         self.L.datetime, self.L.Waste = self.saved
 
+    def events_of(self, w):
+        ev = getattr(w, "_hev", None)
+        if ev is not None:
+            return ev
+        c = getattr(w, "content", None)
+        if id(c) in self.by_content:
+            return [self.by_content[id(c)]]
+        if isinstance(c, dict) and id(c.get("context")) in self.by_content:
+            return [self.by_content[id(c["context"])]]
+        return []
+
+    def event_of_call(self, w):
+        """the ingest event a digester / on_toxic call on object w is about: the oldest one still live"""
+        ev = self.events_of(w)
+        if not ev:
+            return -1
+        k = self.departed.get(id(w), 0) + self.inop.get(id(w), 0)
+        self.inop[id(w)] = self.inop.get(id(w), 0) + 1
+        return ev[k] if k < len(ev) else ev[-1]
+
+    def begin_op(self):
+        self.inop = {}
+
+    def end_op(self, gone_events):
+        """sequential runs: the events that left the queue during the call"""
+        for e in gone_events:
+            w = self.objs.get(e)
+            if w is not None:
+                self.departed[id(w)] = self.departed.get(id(w), 0) + 1
+        self.inop = {}
+
     def do(self, o, i):
-        """the call for operation o; i = id for the item it ingests"""
+        """the call for operation o; i = id (ingest event) for the item it ingests"""
         lys = self.lys
         if o[0] == "ingest":
             self.outs[i], self.types[i] = o[3], o[1]
-            w = self.RealWaste(waste_type=self.wt[o[1]], content={"id": i}, source="h",
+            content = {"v": o[4] if len(o) > 4 else i}
+            if o[1] == TOXIC:
+                content["secret"] = True
+            w = self.RealWaste(waste_type=self.wt[o[1]], content=content, source="h",
                                created_at=self.VDatetime.now() + o[2] * HOUR)
+            w._hev = [i]
+            self.objs[i] = w
+            return lambda: lys.ingest(w)
+        if o[0] == "twin":          # a distinct Waste object that is == the one of event o[1] (own digester outcome)
+            src = self.objs[o[1]]
+            self.outs[i], self.types[i] = o[2], self.types[o[1]]
+            w = copy.copy(src)
+            w._hev = [i]
+            assert w == src and w is not src
+            self.objs[i] = w
+            return lambda: lys.ingest(w)
+        if o[0] == "again":         # the very same Waste object ingested once more
+            w = self.objs[o[1]]
+            self.outs[i], self.types[i] = self.outs[o[1]], self.types[o[1]]
+            w._hev.append(i)
+            self.objs[i] = w
             return lambda: lys.ingest(w)
         if o[0] == "ierr":
             self.outs[i], self.types[i] = o[1], 2
-            return lambda: lys.ingest_error(ValueError("e"), source="h", context={"id": i})
+            ctx = {"v": o[2] if len(o) > 2 else i}
+            self.by_content[id(ctx)] = i
+            self.keep.append(ctx)
+            return lambda: lys.ingest_error(ValueError("e"), source="h", context=ctx)
         if o[0] == "isens":
             self.outs[i], self.types[i] = o[1], TOXIC
-            return lambda: lys.ingest_sensitive({"id": i}, source="h")
+            data = {"v": o[2] if len(o) > 2 else i, "secret": True}
+            self.by_content[id(data)] = i
+            self.keep.append(data)
+            return lambda: lys.ingest_sensitive(data, source="h")
         if o[0] == "digest":
             return lambda: lys.digest(o[1]) if o[1] is not None else lys.digest()
         if o[0] == "auto":
@@ -389,11 +447,22 @@ class Rig:
         raise ValueError(o)
 
     def queue_ids(self):
-        return [wid(w) for w in list(self.lys._queue)]
+        """ingest events of the queued items, in queue order (k occurrences of one object = its k newest events)"""
+        q = list(self.lys._queue)
+        occ, seen, out = {}, {}, []
+        for w in q:
+            occ[id(w)] = occ.get(id(w), 0) + 1
+        for w in q:
+            ev = self.events_of(w)
+            k = seen.get(id(w), 0)
+            seen[id(w)] = k + 1
+            idx = len(ev) - occ[id(w)] + k
+            out.append(ev[idx] if 0 <= idx < len(ev) else -1)
+        return out
 
 
 def is_ingest(o):
-    return o[0] in ("ingest", "ierr", "isens")
+    return o[0] in ("ingest", "ierr", "isens", "twin", "again")
 
 
 def err_ids(errors):
@@ -416,7 +485,11 @@ class C13(Check):
             "of the 5 waste types (created_at = virtual now + offset in -3..+1 h), ingest_error, ingest_sensitive, "
             "digest(None/0/1/2/3/5/-1/-2), autophagy, clock advance 0..3 h; every item carries a scripted digester outcome "
             "(raises 20% / returns {} / returns 1-3 keys from a small shared key space so that keys collide); 40% of the "
-            "histories are ingest-heavy with threshold > capacity so that the capacity branch (emergency digest) is hit. "
+            "histories are ingest-heavy with threshold > capacity so that the capacity branch (emergency digest) is hit; every "
+            "4th history has VALUE-EQUAL items (a distinct Waste object == an earlier one: same type, content, source, priority, "
+            "created_at; the very same Waste object ingested again; ingest_sensitive / ingest_error with the same payload at the "
+            "same virtual time) followed by partial digests digest(1)/digest(2)/digest(3) and auto-digests of half the queue - "
+            "items are identified by ingest event (object identity + FIFO order), never by value. "
             "Exhaustive: every history of depth <=3 (quick) / <=5 (thorough; <=4 on the third) over a 7-call alphabet on 1 (quick) "
             "/ 3 (thorough) small configurations. Validation only: 2 real threads x 1..3 calls on one Lysosome, random pre-fill and start "
             "offsets (300 quick / 4000 thorough runs). non-trivial = at least one item left the queue; distinct by case content")
@@ -560,11 +633,45 @@ class C13(Check):
                 i += 1
         return {"cfg": cfg, "ops": ops}
 
+    def _rand_twin_case(self, rng, maxlen):
+        """histories with VALUE-EQUAL items: `twin k` ingests a distinct Waste object that is == the object of ingest
+        event k (same type, content, source, priority, created_at), `again k` ingests the very same object once more,
+        ingest_sensitive / ingest_error repeat the same payload at the same virtual time; then partial digests
+        (digest(1), digest(2)) and auto-digests of half the queue.  Items are counted by ingest event."""
+        mx = rng.choice([3, 4, 5, 6, 8])
+        cfg = {"max": mx, "thr": rng.choice([3, 4, 4, 5, 6, 9, 10]), "ret": rng.choice([1, 2, 3, 5]), "cb": rng.random() < 0.9}
+        n = rng.randint(4, maxlen)
+        ops, i, direct = [], 0, []
+        for _ in range(n):
+            k = rng.random()
+            if k < 0.55:
+                j = rng.random()
+                if direct and j < 0.45:
+                    o = ["twin", rng.choice(direct[-3:]), self._rand_out(rng, i)]
+                    direct.append(i)
+                elif direct and j < 0.65:
+                    o = ["again", rng.choice(direct[-3:])]
+                    direct.append(i)
+                elif j < 0.80:
+                    o = ["isens", self._rand_out(rng, i), 0] if rng.random() < 0.7 else ["ierr", self._rand_out(rng, i), 0]
+                else:
+                    o = ["ingest", rng.choice([0, 1, 3, TOXIC, TOXIC]), rng.choice([0, 0, 0, -1]), self._rand_out(rng, i), rng.choice([0, 0, 1])]
+                    direct.append(i)
+                i += 1
+            elif k < 0.85:
+                o = ["digest", rng.choice([1, 1, 2, 2, 3, None])]
+            elif k < 0.93:
+                o = ["auto"]
+            else:
+                o = ["adv", rng.choice([0, 1, 1, 2])]
+            ops.append(o)
+        return {"cfg": cfg, "ops": ops}
+
     def gen_cases(self, rng, n):
         out = []
         for j in range(n):
             maxlen = 14 if (self.tier == "quick" or j % 4) else 30
-            out.append(self._rand_case(rng, maxlen))
+            out.append(self._rand_twin_case(rng, maxlen) if j % 4 == 1 else self._rand_case(rng, maxlen))
         return out
 
     ALPHABET = [["ingest", 0, 0, [0]], ["ingest", 1, 0, None], ["isens", []], ["isens", None],
@@ -603,6 +710,7 @@ class C13(Check):
             for idx, o in enumerate(ops):
                 before = rig.queue_ids()
                 ncalls = len(rig.calls)
+                rig.begin_op()
                 if o[0] == "adv":
                     rig.clock.t += o[1]
                     ret, row = None, [0]
@@ -631,6 +739,8 @@ class C13(Check):
                 st = lys.get_statistics()
                 qs = lys.get_queue_status()
                 after = rig.queue_ids()
+                pool = before + ([nid] if is_ingest(o) else [])
+                rig.end_op([x for x in pool if x not in after])
                 binraw = lys.get_recycled()
                 b = sorted((keynum(k), valnum(v)) for k, v in binraw.items())
                 row += [st["queue_size"], st["total_ingested"], st["total_digested"], st["total_recycled"]]
@@ -646,10 +756,11 @@ class C13(Check):
                                                       (ret if isinstance(ret, int) else
                                                        {"disposed": ret.disposed, "nerr": len(ret.errors),
                                                         "success": ret.success,
-                                                        "recycled_refs": sorted(set().union(*[refs(v) for v in ret.recycled.values()])) if ret.recycled else []})),
+                                                        "recycled_refs": int_refs(ret.recycled.values()),
+                                                        "recycled_secret": has_secret(ret.recycled)})),
                               "stats": {k: st[k] for k in ("queue_size", "total_ingested", "total_digested", "total_recycled")},
                               "qsize": qs["size"],
-                              "bin_refs": sorted(set().union(*[refs(v) for v in binraw.values()])) if binraw else []})
+                              "bin_refs": int_refs(binraw.values()), "bin_secret": has_secret(binraw)})
                 if is_ingest(o):
                     nid += 1
             return obs, {"steps": steps, "types": dict(rig.types), "toxlog": list(rig.toxlog)}
@@ -666,19 +777,33 @@ class C13(Check):
             return "(mkConfig 0 0 0 false, [])"
         cfg = case["cfg"]
         ops = []
+        t = 0
+        ev = []          # per ingest event: (type index, created_at, outcome)
         for o in case["ops"]:
             if o[0] == "ingest":
                 ops.append(f"Ingest {TYPES[o[1]]} {cz(o[2])} {self._cout(o[3])}")
+                ev.append((o[1], t + o[2], o[3]))
+            elif o[0] == "twin":        # value-equal copy: same type and created_at, its own outcome
+                ty, cr, _ = ev[o[1]]
+                ops.append(f"Ingest {TYPES[ty]} {cz(cr - t)} {self._cout(o[2])}")
+                ev.append((ty, cr, o[2]))
+            elif o[0] == "again":       # the same object once more: same type, created_at and outcome
+                ty, cr, out = ev[o[1]]
+                ops.append(f"Ingest {TYPES[ty]} {cz(cr - t)} {self._cout(out)}")
+                ev.append((ty, cr, out))
             elif o[0] == "ierr":
                 ops.append(f"IngestError {self._cout(o[1])}")
+                ev.append((2, t, o[1]))
             elif o[0] == "isens":
                 ops.append(f"IngestSensitive {self._cout(o[1])}")
+                ev.append((TOXIC, t, o[1]))
             elif o[0] == "digest":
                 ops.append(f"DigestOp {copt(o[1])}")
             elif o[0] == "auto":
                 ops.append("Autophagy")
             else:
                 ops.append(f"Advance {cz(o[1])}")
+                t += o[1]
         return f"(mkConfig {cz(cfg['max'])} {cz(cfg['thr'])} {cz(cfg['ret'])} {cbool(cfg['cb'])}, {clist(ops)})"
 
     # -- the property, on the implementation's trace ------------------------
@@ -709,7 +834,8 @@ class C13(Check):
             new = st["new"]
             if new is not None:
                 ningested += 1
-                types[new] = TOXIC if o[0] == "isens" else (2 if o[0] == "ierr" else o[1])
+                types[new] = (TOXIC if o[0] == "isens" else 2 if o[0] == "ierr" else
+                              types[o[1]] if o[0] in ("twin", "again") else o[1])
             # bounded queue
             if cfg["max"] >= 2 and len(after) > cfg["max"]:
                 return Violation("C13/queue-unbounded", f"after {where} the queue holds {len(after)} items > max_queue_size {cfg['max']}")
@@ -769,6 +895,8 @@ class C13(Check):
                 for v in r["recycled_refs"]:
                     if types.get(v) == TOXIC:
                         return Violation("C13/toxic-recycled", f"{where}: DigestResult.recycled refers to sensitive item {v}")
+                if r.get("recycled_secret"):
+                    return Violation("C13/toxic-recycled", f"{where}: DigestResult.recycled holds the content of a sensitive item")
             if o[0] == "auto" and st["ret"] != len(gone):
                 return Violation("C13/conservation", f"{where} returned {st['ret']} but {len(gone)} items expired")
             if s["total_ingested"] != len(after) + s["total_digested"] + n_rep + n_silent + n_exp:
@@ -778,6 +906,8 @@ class C13(Check):
             for v in st["bin_refs"]:
                 if types.get(v) == TOXIC:
                     return Violation("C13/toxic-recycled", f"after {where} the recycling bin refers to sensitive item {v}")
+            if st.get("bin_secret"):
+                return Violation("C13/toxic-recycled", f"after {where} the recycling bin holds the content of a sensitive item")
         return None
 
     def nontrivial(self, case, obs, trace):
@@ -789,6 +919,8 @@ class C13(Check):
         ks = [f"len={min(len(case['ops']), 15)}", "thr>max" if cfg["thr"] > cfg["max"] else ("thr=max" if cfg["thr"] == cfg["max"] else "thr<max")]
         if cfg["thr"] == 1:
             ks.append("thr=1")
+        if any(o[0] in ("twin", "again") for o in case["ops"]):
+            ks.append("value-equal-items")
         if not isinstance(trace, dict):
             return ks
         for s in trace.get("steps", []):
@@ -815,7 +947,41 @@ class C13(Check):
     def shrink(self, case, pred):
         if "two_threads" in case or "sched" in case:
             return case
-        ops = common.shrink_list(case["ops"], lambda xs: len(xs) > 0 and pred({**case, "ops": xs}), max_rounds=60)
+        ops = [list(o) for o in case["ops"]]
+
+        def drop(ops, r):
+            """ops without ops[r], references to ingest events renumbered; None if ops[r] is referenced"""
+            evs, e = [], 0
+            for o in ops:
+                evs.append(e if is_ingest(o) else None)
+                e += 1 if is_ingest(o) else 0
+            gone = evs[r]
+            out = []
+            for j, o in enumerate(ops):
+                if j == r:
+                    continue
+                o = list(o)
+                if o[0] in ("twin", "again") and gone is not None:
+                    if o[1] == gone:
+                        return None
+                    if o[1] > gone:
+                        o[1] -= 1
+                out.append(o)
+            return out
+        rounds, changed = 0, True
+        while changed and rounds < 80:
+            changed = False
+            for r in range(len(ops)):
+                cand = drop(ops, r)
+                if not cand:
+                    continue
+                rounds += 1
+                try:
+                    if pred({**case, "ops": cand}):
+                        ops, changed = cand, True
+                        break
+                except Exception:
+                    pass
         return {**case, "ops": ops}
 
     # -- two real threads (validation, not proof) ---------------------------
@@ -872,9 +1038,11 @@ class C13(Check):
                                                  f"{n_raise} raised ({n_rep} reported), disposed {n_disp}")
         if n_ing != len(q) + n_ok + n_raise + n_exp:
             return Violation("C13/conservation", f"{desc}: {n_ing} ingested != {len(q)} queued + {n_ok} digested + {n_raise} errors + {n_exp} expired")
-        for v in set().union(*[refs(x) for x in lys.get_recycled().values()]) if lys.get_recycled() else []:
+        for v in int_refs(lys.get_recycled().values()):
             if rig.types.get(v) == TOXIC:
                 return Violation("C13/toxic-recycled", f"{desc}: recycling bin refers to sensitive item {v}")
+        if has_secret(lys.get_recycled()):
+            return Violation("C13/toxic-recycled", f"{desc}: recycling bin holds the content of a sensitive item")
         # the counter and bin updates digest() makes outside the lock: nothing lost
         want_rec = sum(1 for (_i, ks) in rig.recycle_expected if ks)
         if st["total_recycled"] != want_rec:
